@@ -55,7 +55,8 @@ def exclTags (ps : PState) (toks : List String) : List String × Bool :=
       let moves := !isVector t.ap.shape && !isScalar t.ap.shape
       ((if t.ap.o.col && moves then ["F6"] else []) ++
        (if Excl_vectorT t ax then ["F28"] else []) ++ (if Excl_shortStrides t then ["F24"] else []) ++
-       (if (t.win.len : Int) != totalSize t.ap.shape then ["F16"] else []), false)
+       (if (t.win.len : Int) != totalSize t.ap.shape then ["F16"] else []) ++
+       (if t.old.isSome && !isVector t.ap.shape && !isScalar t.ap.shape then ["F120"] else []), false)
     | _, _ => ([], false)
   | ["transpose", v] =>
     match ps.obj v with
@@ -63,6 +64,7 @@ def exclTags (ps : PState) (toks : List String) : List String × Bool :=
       ((if Excl_transposeView t then ["F5"] else []) ++ (if Excl_transposeCol t then ["F6"] else []) ++
        (if Excl_transposeVectorStrides t then ["F28"] else []) ++
        (if Excl_reshapeLongWindow t && t.old.isSome then ["F16"] else []) ++
+       (if Excl_transposeFromPermuted t then ["F120"] else []) ++
        (if Excl_transposeShared (otherLive ps id) t then ["F39"] else []), true)
     | _ => ([], false)
   | ["iter", v, _] =>
